@@ -481,3 +481,228 @@ Proof.
     assert (Hio : in_off (pos + x_pos e) = true) by (apply in_off_iff; unfold OFF_MIN, OFF_MAX; lia).
     rewrite Hio. change (area_start (x_len e :: map x_len rest) 0) with 0. f_equal. lia.
 Qed.
+
+(** * A consistent disk set is accepted in every order *)
+
+Lemma set_nth_length {A} (l : list A) a : forall k, length (set_nth l k a) = length l.
+Proof. induction l as [|x t IH]; intros [|k]; cbn [set_nth length]; auto. Qed.
+
+Lemma map_set_nth {A B} (f : A -> B) (l : list A) a : forall k,
+  map f (set_nth l k a) = set_nth (map f l) k (f a).
+Proof. induction l as [|x t IH]; intros [|k]; cbn [set_nth map]; auto. now rewrite IH. Qed.
+
+Lemma forall2_nth {A B} (R : A -> B -> Prop) l l' : Forall2 R l l' ->
+  forall k a t, nth_error l k = Some a -> nth_error l' k = Some t -> R a t.
+Proof.
+  induction 1 as [|x y l l' Hxy HF IH]; intros [|k] a t Ha Ht; cbn [nth_error] in *; try discriminate.
+  - injection Ha as <-. injection Ht as <-. exact Hxy.
+  - eapply IH; eassumption.
+Qed.
+
+Lemma forall2_set_nth {A B} (R : A -> B -> Prop) l l' : Forall2 R l l' ->
+  forall k a t, nth_error l' k = Some t -> R a t -> Forall2 R (set_nth l k a) l'.
+Proof.
+  induction 1 as [|x y l l' Hxy HF IH]; intros [|k] a t Ht Ra; cbn [nth_error set_nth] in *; try discriminate.
+  - injection Ht as <-. now constructor.
+  - constructor; [exact Hxy|]. eapply IH; eassumption.
+Qed.
+
+Lemma forall2_impl {A B} (R R' : A -> B -> Prop) l l' :
+  (forall a b, R a b -> R' a b) -> Forall2 R l l' -> Forall2 R' l l'.
+Proof. intros H. induction 1; constructor; auto. Qed.
+
+Lemma map_repeat' {A B} (f : A -> B) a n : map f (repeat a n) = repeat (f a) n.
+Proof. induction n as [|n IH]; cbn [repeat map]; [reflexivity|now rewrite IH]. Qed.
+
+Definition d1seen (dm : list dent) : bool := match dm with e :: _ => v_seen e | [] => false end.
+
+Section Consistent.
+  Variables bs sy se ti : N.
+  Variable table : list N.
+
+  (** what is remembered per disk agrees with the table wherever it matters *)
+  Definition vol_ok (b : bool) (dm : list dent) : Prop :=
+    Forall2 (fun e t => v_seen e = true \/ b = true -> v_id e = t) dm table.
+
+  Definition hcons (n : nat) (h : hdr) : Prop :=
+    h_bs h = bs /\ h_sys h = sy /\ h_set h = se /\ h_time h = ti /\
+    nth_error table (N.to_nat (h_num h - 1)) = Some (h_vol h) /\
+    (h_num h = 1%N -> h_disks h = N.of_nat n /\ h_table h = table).
+
+  Definition pinv (n : nat) (st : pstate) : Prop :=
+    length (ps_ext st) = n /\ length (ps_dm st) = n /\
+    map v_seen (ps_dm st) = map x_seen (ps_ext st) /\
+    (ps_first st = None \/ ps_first st = Some (bs, sy, se, ti)) /\
+    vol_ok (d1seen (ps_dm st)) (ps_dm st).
+
+  Lemma vol_table_ok : forall dm tb prev,
+    Forall2 (fun e t => v_seen e = true -> v_id e = t) dm tb ->
+    exists r, vol_table false prev dm tb = inl r /\
+      map v_seen r = map v_seen dm /\ Forall2 (fun e t => v_id e = t) r tb.
+  Proof.
+    induction dm as [|e dm IH]; intros tb prev H; inversion H as [|e' t dm' tb' He HF E1 E2]; subst.
+    - exists []. repeat split; constructor.
+    - cbn [vol_table].
+      destruct (v_seen e) eqn:Es.
+      + rewrite (He eq_refl), N.eqb_refl.
+        destruct (IH tb' (Some e) HF) as (r & -> & Hs & Hv).
+        exists (e :: r). cbn [map]. rewrite Hs.
+        repeat split. constructor; [now apply He|exact Hv].
+      + destruct (IH tb' (Some {| v_id := t; v_seen := false |}) HF) as (r & -> & Hs & Hv).
+        exists ({| v_id := t; v_seen := false |} :: r). cbn [map v_seen]. rewrite Hs, Es.
+        repeat split. constructor; [reflexivity|exact Hv].
+  Qed.
+
+  Lemma probe_step_ok n st fidx h exts' :
+    pinv n st -> hcons n h -> length table = n ->
+    place (ps_ext st) fidx [disk_of h] = Some exts' ->
+    exists st', probe_step false st fidx h = inl st' /\ ps_ext st' = exts' /\ pinv n st'.
+  Proof.
+    intros (Hle & Hld & Hsync & Hfirst & Hvol) (Hbs & Hsy & Hse & Hti & Htab & Hone) Htl Hpl.
+    cbn [place disk_of d_num d_pos d_len] in Hpl. unfold probe_step. rewrite Hle in *.
+    (* identification *)
+    assert (Hid : exists first,
+      match ps_first st with
+      | None => inl (Some (h_bs h, h_sys h, h_set h, h_time h))
+      | Some (bs0, sy0, se0, ti0) =>
+          if negb (bs0 =? h_bs h)%N then inr ST_INVALID
+          else if negb (sy0 =? h_sys h)%N then inr ST_INVALID
+          else if negb (se0 =? h_set h)%N then inr ST_INVALID
+          else if negb (ti0 =? h_time h)%N then inr ST_INVALID
+          else inl (Some (bs0, sy0, se0, ti0))
+      end = inl first /\ first = Some (bs, sy, se, ti)).
+    { destruct Hfirst as [->| ->].
+      - eexists. split; [reflexivity|]. now rewrite Hbs, Hsy, Hse, Hti.
+      - rewrite Hbs, Hsy, Hse, Hti, !N.eqb_refl. cbn [negb]. eexists. split; reflexivity. }
+    destruct Hid as (first & -> & Hf).
+    destruct (N.eqb_spec (h_num h) 0) as [|Hn0]; [discriminate|].
+    destruct (N.ltb_spec (N.of_nat n) (h_num h)) as [|Hnn]; [discriminate|]. cbn [orb] in Hpl.
+    set (k := N.to_nat (h_num h - 1)) in *.
+    destruct (nth_error (ps_ext st) k) as [e|] eqn:Ee; [|discriminate].
+    destruct (x_seen e) eqn:Ese; [discriminate|]. injection Hpl as <-.
+    assert (Hkn : (k < n)%nat) by (unfold k; lia).
+    destruct (nth_error (ps_dm st) k) as [di|] eqn:Ed; [|apply nth_error_None in Ed; lia].
+    assert (Hds : v_seen di = false).
+    { assert (E : nth_error (map v_seen (ps_dm st)) k = nth_error (map x_seen (ps_ext st)) k) by now rewrite Hsync.
+      rewrite !nth_error_map, Ed, Ee in E. cbn [option_map] in E. injection E as ->. exact Ese. }
+    rewrite Hds. fold (d1seen (ps_dm st)).
+    (* process_vol_id *)
+    assert (Hdm1 : exists dm1,
+      (if d1seen (ps_dm st)
+       then if (v_id di =? h_vol h)%N then inl (ps_dm st) else inr ST_CORRUPT
+       else inl (set_nth (ps_dm st) k {| v_id := h_vol h; v_seen := false |})) = inl dm1 /\
+      length dm1 = n /\ map v_seen dm1 = map v_seen (ps_dm st) /\
+      vol_ok (d1seen (ps_dm st)) dm1 /\
+      (exists d', nth_error dm1 k = Some d' /\ v_id d' = h_vol h)).
+    { destruct (d1seen (ps_dm st)) eqn:Eb.
+      - assert (Hv : v_id di = h_vol h) by (eapply (forall2_nth _ _ _ Hvol k di (h_vol h) Ed Htab); now right).
+        rewrite Hv, N.eqb_refl. exists (ps_dm st). repeat split; try assumption. now exists di.
+      - eexists. split; [reflexivity|]. split; [now rewrite set_nth_length|].
+        split.
+        { rewrite map_set_nth. cbn [v_seen]. rewrite <- Hds.
+          apply nth_error_ext. intros j. rewrite nth_error_set_nth, map_length, Hld.
+          destruct (Nat.eqb_spec j k) as [->|]; [|reflexivity].
+          destruct (Nat.ltb_spec k n); [|lia]. now rewrite nth_error_map, Ed. }
+        split.
+        { eapply forall2_set_nth; [exact Hvol|exact Htab|]. cbn [v_id]. reflexivity. }
+        exists {| v_id := h_vol h; v_seen := false |}. split; [|reflexivity].
+        rewrite nth_error_set_nth, Nat.eqb_refl, Hld. destruct (Nat.ltb_spec k n); [reflexivity|lia]. }
+    destruct Hdm1 as (dm1 & -> & Hl1 & Hs1 & Hv1 & d' & Hd' & Hvd').
+    destruct (N.ltb_spec 1 (h_num h)) as [Hgt|Hle1].
+    - (* a disk other than #1 *)
+      rewrite Hd'. eexists. split; [reflexivity|]. split; [reflexivity|].
+      assert (Hk0 : exists k', k = S k') by (exists (N.to_nat (h_num h - 2)); unfold k; lia).
+      destruct Hk0 as (k' & Hk').
+      unfold pinv. cbn [ps_ext ps_dm ps_first].
+      rewrite !set_nth_length, !map_set_nth. cbn [v_seen x_seen]. rewrite Hs1, Hsync.
+      repeat split; try assumption; [now right|].
+      assert (Hb : d1seen (set_nth dm1 k {| v_id := v_id d'; v_seen := true |}) = d1seen (ps_dm st)).
+      { rewrite Hk'. assert (Hh : d1seen dm1 = d1seen (ps_dm st)).
+        { destruct dm1 as [|a1 t1], (ps_dm st) as [|a2 t2]; cbn [map] in Hs1; try discriminate; [reflexivity|].
+          cbn [d1seen]. now injection Hs1. }
+        rewrite <- Hh. destruct dm1; reflexivity. }
+      unfold vol_ok. rewrite Hb.
+      eapply forall2_set_nth; [exact Hv1|exact Htab|]. cbn [v_id]. intros _. exact Hvd'.
+    - (* disk #1: the volume table *)
+      assert (Hn1 : h_num h = 1%N) by lia. destruct (Hone Hn1) as [Hdk Htb].
+      assert (Hk0 : k = 0%nat) by (unfold k; lia).
+      rewrite Hdk, N.eqb_refl, Htb. cbn [negb].
+      assert (Hb0 : d1seen (ps_dm st) = false).
+      { rewrite Hk0 in Ed. destruct (ps_dm st) as [|a t]; [discriminate|]. cbn [nth_error] in Ed.
+        injection Ed as ->. exact Hds. }
+      rewrite Hb0 in Hv1.
+      destruct (vol_table_ok dm1 table None) as (r & -> & Hsr & Hvr).
+      { eapply forall2_impl; [|exact Hv1]. cbn beta. intros a b H Hs. apply H. now left. }
+      destruct r as [|d0 dmr].
+      { destruct dm1; [cbn [length] in Hl1; lia|discriminate]. }
+      eexists. split; [reflexivity|]. split; [reflexivity|].
+      unfold pinv. cbn [ps_ext ps_dm ps_first].
+      rewrite set_nth_length, map_set_nth. cbn [x_seen map v_seen d1seen length].
+      assert (Hlr : length (d0 :: dmr) = n).
+      { rewrite <- Hl1. rewrite <- (map_length v_seen), Hsr, map_length. reflexivity. }
+      cbn [length] in Hlr.
+      repeat split; try assumption; [| now right |].
+      + rewrite <- Hsync, <- Hs1, <- Hsr, Hk0. cbn [map set_nth]. reflexivity.
+      + unfold vol_ok. inversion Hvr as [|a b l l' Hab HF E1 E2]; subst.
+        constructor; [intros _; reflexivity|].
+        eapply forall2_impl; [|exact HF]. cbn beta. intros a b H _. exact H.
+  Qed.
+
+  Lemma place_split : forall ds exts fidx d exts',
+    place exts fidx (d :: ds) = Some exts' ->
+    exists mid, place exts fidx [d] = Some mid /\ place mid (fidx + 1)%N ds = Some exts'.
+  Proof.
+    intros ds exts fidx d exts' H. cbn [place] in *.
+    destruct ((d_num d =? 0)%N || (N.of_nat (length exts) <? d_num d)%N); [discriminate|].
+    destruct (nth_error exts (N.to_nat (d_num d - 1))) as [e|]; [|discriminate].
+    destruct (x_seen e); [discriminate|]. eexists. split; [reflexivity|exact H].
+  Qed.
+
+  Lemma probe_loop_ok n : forall hs st fidx exts',
+    pinv n st -> (forall h, In h hs -> hcons n h) -> length table = n ->
+    place (ps_ext st) fidx (map disk_of hs) = Some exts' ->
+    exists st', probe_loop false st fidx hs = inl st' /\ ps_ext st' = exts'.
+  Proof.
+    induction hs as [|h t IH]; intros st fidx exts' Hinv Hc Htl Hpl.
+    - cbn [map place] in Hpl. injection Hpl as <-. exists st. split; reflexivity.
+    - cbn [map] in Hpl. apply place_split in Hpl as (mid & Hp1 & Hp2).
+      destruct (probe_step_ok n st fidx h mid Hinv (Hc h (or_introl eq_refl)) Htl Hp1)
+        as (st1 & Hs1 & He1 & Hi1).
+      cbn [probe_loop]. rewrite Hs1. rewrite <- He1 in Hp2.
+      apply (IH st1 (fidx + 1)%N exts' Hi1); [|exact Htl|exact Hp2].
+      intros h' Hh'. apply Hc. now right.
+  Qed.
+End Consistent.
+
+(** [sadump_probe] accepts a consistent disk set whatever the order of the
+    files, and files the extents exactly as [assemble] does *)
+Theorem consistent_accepted_any_order hs hs' :
+  consistent_set hs -> Permutation hs hs' ->
+  exists exts, probe_set false hs' = inl exts /\ assemble (map disk_of hs') = Some exts.
+Proof.
+  intros (Hcs & bs & sy & se & ti & table & Htl & Hall) Hp.
+  assert (Hcs' : complete_set (map disk_of hs')) by (eapply complete_set_perm; [exact Hcs|now apply Permutation_map]).
+  pose proof (assemble_table _ Hcs') as Has.
+  eexists. split; [|exact Has].
+  unfold probe_set. unfold assemble in Has. rewrite map_length in Has.
+  set (n := length hs') in *.
+  assert (Hn : length hs = n) by (unfold n; now apply Permutation_length).
+  set (st0 := {| ps_ext := repeat no_extent n; ps_dm := repeat {| v_id := 0; v_seen := false |} n;
+                 ps_first := None |}).
+  assert (Hinv : pinv bs sy se ti table n st0).
+  { unfold pinv, st0. cbn [ps_ext ps_dm ps_first]. rewrite !repeat_length, !map_repeat'.
+    cbn [v_seen x_seen no_extent].
+    split; [reflexivity|]. split; [reflexivity|]. split; [reflexivity|]. split; [now left|].
+    unfold vol_ok. rewrite <- Hn in *. clear -Htl. revert table Htl.
+    induction (length hs) as [|m IH]; intros [|t tb] Hl; cbn [length repeat] in *; try discriminate; constructor.
+    - cbn [v_seen d1seen]. intros [H|H]; discriminate.
+    - assert (Hl' : length tb = m) by lia. specialize (IH tb Hl').
+      eapply forall2_impl; [|exact IH]. cbn beta. intros a b H [Hs|Hb]; [apply H; now left|discriminate]. }
+  assert (Hc : forall h, In h hs' -> hcons bs sy se ti table n h).
+  { intros h Hh. assert (Hin : In h hs) by now apply (Permutation_in _ (Permutation_sym Hp)).
+    destruct (Hall h Hin) as (H1 & H2 & H3 & H4 & H5 & H6). unfold hcons. rewrite <- Hn.
+    split; [exact H1|]. split; [exact H2|]. split; [exact H3|]. split; [exact H4|]. split; [exact H5|exact H6]. }
+  assert (Htl' : length table = n) by now rewrite Htl.
+  destruct (probe_loop_ok bs sy se ti table n hs' st0 0%N _ Hinv Hc Htl' Has) as (st' & Hst & Hext).
+  rewrite Hst, Hext, map_length. reflexivity.
+Qed.
